@@ -222,7 +222,8 @@ a violation of a listed statement was first given corpus until a check reported 
 | 13 bytes denoting 2⁶³ payload-less elements | C | documented exclusion (§6.3, C03) | — | — |
 | json / cborl `Parser.Write` and all `Decoder`s deliver further events when called *again* after a visitor error | D | genuine (C16, second sentence; my check had judged the failing call only) | C16 (one more call after the failing one) | `a22db03` |
 | decoders drop a non-EOF read error delivered with data; json encoder drops errors of a sink that fails only once | C, D | outside the statements (C18: `io.EOF`; C16: a sink that keeps failing) | — | — |
-| JSON lexical leniency (`0123`, `+1`, `.5`, `\'`, `\v` as blank); `OnByte(b >= 128)` written as UBJSON char; invalid UTF-8 copied into CBOR / UBJSON strings | C, D | C04 demands rejection of wrong *structure* only; C01 demands byte-exact strings; char: my reference follows the library's data model (§4) | — | — |
+| `OnByte(b >= 128)` written as an (invalid) UBJSON char | D | genuine (C07: valid for an independent draft-12 reader); my reference had been lenient | C07, C08, C10 (after the reference was made strict) | `e8d4695` |
+| JSON lexical leniency (`0123`, `+1`, `.5`, a quote escaped as backslash-apostrophe, vertical tab as blank); invalid UTF-8 copied into CBOR / UBJSON strings | C, D | C04 demands rejection of wrong *structure* only; C01 demands byte-exact strings | — | — |
 | inlined `*Self` field: stack overflow when the folder is compiled | A, F | real, pathological; not explored | — | not repaired (see §8) |
 
 No sub-agent found a violation of C15, C19 or C20, nor of chunking independence (C02), conformance on well-formed input
